@@ -583,6 +583,19 @@ func init() {
 			}
 			adv := advSizes[r.Intn(len(advSizes))]
 			payload := r.sockQuery(adv)
+			if i == c.n/2 || r.Chance(1) {
+				// the answer to the first query arrives after its deadline, and the next query - another question - carries
+				// the same ID and is answered later than that stray datagram arrives: it must get its own answer (whatever
+				// the resolver keeps between two exchanges - a socket, say - must not hand it the stray one)
+				c.Stat("dns53:late-then-same-id")
+				slow := int(upTimeoutOf("dns53s") / time.Millisecond)
+				other := r.sockQuery(adv)
+				other[0], other[1] = payload[0], payload[1]
+				n1 := 40 + r.Intn(100)
+				runPair(proto, payload, []dgram{{delay: slow + 500, kind: "latematch", n: n1, salt: r.Intn(256)}},
+					other, []dgram{{delay: slow - 500, kind: "match", n: n1 + 1 + r.Intn(60), salt: r.Intn(256)}})
+				continue
+			}
 			if i == c.n/3 || (c.tier == "thorough" && r.Chance(1)) {
 				// a RUN of faulty exchanges longer than the manager's error threshold, then the upstream behaves: state
 				// the endpoint layer keeps about consecutive failures must not outlive the outage
@@ -673,19 +686,6 @@ func init() {
 						script = append(script, dgram{delay: d, kind: []string{"wrongid", "wronghi", "short"}[r.Intn(3)], n: 30, salt: r.Intn(256)})
 					}
 					runDNS(proto, payload, script)
-					continue
-				}
-				if i == c.n/2 || r.Chance(2) {
-					// the answer to the first query arrives after its deadline, and the next query - another question - carries
-					// the same ID and is answered later than that stray datagram arrives: it must get its own answer (whatever
-					// the resolver keeps between two exchanges - a socket, say - must not hand it the stray one)
-					c.Stat("dns53:late-then-same-id")
-					slow := int(upTimeoutOf("dns53s") / time.Millisecond)
-					other := r.sockQuery(adv)
-					other[0], other[1] = payload[0], payload[1]
-					n1 := 40 + r.Intn(100)
-					runPair(proto, payload, []dgram{{delay: slow + 500, kind: "latematch", n: n1, salt: r.Intn(256)}},
-						other, []dgram{{delay: slow - 500, kind: "match", n: n1 + 1 + r.Intn(60), salt: r.Intn(256)}})
 					continue
 				}
 				switch r.Intn(6) {
